@@ -239,8 +239,14 @@ class Transect:
         point: shapely.Point,
         globe: crs.Globe | None = None,
     ) -> crs.Projection:
+        # The projection must be centred on the geodetic location of the point.
+        # The coordinates of the point are in the CRS of the dataset,
+        # which need not be identical to geodetic longitude and latitude.
+        data_crs = self.convention.data_crs
+        longitude, latitude = data_crs.as_geodetic().transform_point(
+            point.x, point.y, src_crs=data_crs)
         return crs.AzimuthalEquidistant(
-            central_longitude=point.x, central_latitude=point.y, globe=globe)
+            central_longitude=longitude, central_latitude=latitude, globe=globe)
 
     @cached_property
     def points(
